@@ -1161,6 +1161,12 @@ theorem statement_context_and_errors :
   · intro e; cases e <;> rfl
   · intro w h; simp [Wiring.ctxAtDriver, composeCtx, h]
 
+/-- what the seeded change C14-9 did (body panics, Rollback fails; an outer recover builds a fresh error and the
+rollback failure assigned while panicking is lost): the clause "rollback failures are reported" is violated -/
+example : violated
+    { log := [.begin true, .rollback false], runs := 1, body := .panic,
+      ret := some { is := [], says := [.panic] }, mark := some false } = ["end-failures-reported"] := by decide
+
 /-! ### round 5c: two transactions in flight on one connection pool -/
 
 open GoZero.C14.Conc in
